@@ -581,7 +581,7 @@ func main() {
 	rng := lib.NewRng(f.Seed)
 	out := lib.NewOut("C03", f)
 	out.Imports = "From Verif Require Import Model.Prim.\n"
-	out.Rule = "per primitive: boundary values first (sizes 0/1/127/128/255/256/limit-1/limit, int edges), then random; each value gives one round-trip case (real WriteX, then real ReadX on encoding ++ 0..3 trailing bytes, through a *bytes.Reader), one case per strict prefix of the encoding (all prefixes up to 24 bytes, else header/boundary/random cut points), and length-prefixed primitives get cases with prefixes -1, 0, 1, limit-1, limit, limit+1, 2^31-1, -2^31 followed by 0..4 bytes; distinct = distinct (op, kind, value, observation) terms; non-trivial = prefix cases with k >= 1, round trips whose encoding has >= 2 bytes or trailing bytes, all length-prefix cases"
+	out.Rule = "per primitive: boundary values first (sizes 0/1/127/128/255/256/limit-1/limit, int edges), then random; each value gives one round-trip case (real WriteX, then real ReadX on encoding ++ 0..3 trailing bytes, through a *bytes.Reader), one case per strict prefix of the encoding (all prefixes up to 24 bytes, else header/boundary/random cut points), and length-prefixed primitives get cases with prefixes -1, 0, 1, limit-1, limit, limit+1, 2^31-1, -2^31 followed by 0..4 bytes or by a complete body; plus a malformed stream of raw inputs per reader (over-long VarInts, random bytes) judged by model agreement only; distinct = distinct (op, kind, value, observation) terms; non-trivial = prefix cases with k >= 1, round trips whose encoding has >= 2 bytes or trailing bytes, all length-prefix cases"
 
 	for _, p := range prims() {
 		r := rng.Fork()
@@ -647,6 +647,9 @@ func main() {
 				if l > 70000 && l <= p.limit {
 					tails = tails[:1] // an in-limit huge length with a non-empty tail would be a huge zero-padded array today
 				}
+				if l > 0 && l <= 4096 {
+					tails = append(tails, r.Bytes(int(l)+r.Range(0, 2))) // a complete body: accepted iff l is within the limit
+				}
 				for _, tail := range tails {
 					in := append(append([]byte{}, p.hdr(l)...), tail...)
 					o := observe(p, in)
@@ -655,6 +658,30 @@ func main() {
 						true, "op="+p.name, "kind=length-prefix")
 				}
 			}
+		}
+	}
+	// malformed stream: arbitrary bytes straight into every reader (judged by model agreement only)
+	raw := rng.Fork()
+	special := [][]byte{
+		{0x80, 0x80, 0x80, 0x80, 0x80, 0x01}, {0xff, 0xff, 0xff, 0xff, 0xff, 0x0f}, {0xff, 0xff, 0xff, 0xff, 0x7f},
+		{0x80, 0x80, 0x80, 0x80, 0x10}, {0x02}, {0x80}, {}, {0x00}, {0x01, 0x3a}, {0x03, 0x3a, 0x61, 0x62}, {0x03, 0x61, 0x3a, 0x3a},
+	}
+	for _, p := range prims() {
+		n := f.Count(6)
+		for i := 0; i < n; i++ {
+			var in []byte
+			if i < 3 {
+				in = special[raw.Intn(len(special))]
+			} else {
+				in = raw.Bytes(raw.Range(0, 12))
+				if raw.Bool() && len(in) > 0 {
+					in[0] = byte(raw.Intn(6)) // small leading length so that bodies are sometimes complete
+				}
+			}
+			o := observe(p, in)
+			out.Add(lib.App("Check.C03.mk", p.coq, lib.App("KRaw", coqBytes(in)), "(VL [])", "None", o.coq),
+				map[string]any{"op": p.name, "kind": "raw", "input_hex": fmt.Sprintf("%x", in), "observed": o.desc},
+				len(in) > 0, "op="+p.name, "kind=raw")
 		}
 	}
 	out.Finish()
